@@ -25,6 +25,7 @@ import itertools
 from typing import Any
 
 from hv.clock import patched_time
+from hv.gen import argnames
 from hv.loop import VClock, run_virtual
 from hv.record import Recorder
 
@@ -329,7 +330,15 @@ def cases(tier: str):  # noqa: ANN201
             yield {"d": d, "outcome": outcome, "T": T, "c": c, "scoped": False, "nested": outer, "direct": True}
 
 
+def argname_wrappers() -> dict[str, tuple[Any, bool, bool]]:
+    from haiway import timeout
+
+    return {"timeout": (timeout(30), True, False), "timeout-stacked": (lambda f: timeout(30)(timeout(20)(f)), True, False)}
+
+
 def run(R: Recorder, tier: str, seed: int, shard: int, nshards: int) -> None:
+    if shard == 0:
+        argnames.check(R, "arguments", argname_wrappers())
     R.flags["exhaustive"] = True
     R.flags["exhaustive_core"] = "full table durations x outcomes x timeouts x cancel instants x scoped (+ nested timeouts)"
     for i, case in enumerate(cases(tier)):
@@ -338,4 +347,7 @@ def run(R: Recorder, tier: str, seed: int, shard: int, nshards: int) -> None:
 
 
 def replay(R: Recorder, case: dict[str, Any]) -> None:
+    if "argnames" in case:
+        argnames.check(R, "arguments", argname_wrappers(), only=case["argnames"])
+        return
     (run_overlap if case.get("overlap") else run_case)(R, case, verbose=True)
